@@ -206,10 +206,13 @@ def main():
                 units.append(f.result())
         units.sort(key=lambda r: unit_names.index(r.unit))
         undecided = []
+        prefixes = tuple(cfg.get("labels", [pid + "."]))
         for r in units:
             if r.status != "ok":
                 undecided.append("%s: %s" % (r.unit, r.reason))
             for lab, o in r.obligations.items():
+                if not lab.startswith(prefixes) and ".unlabelled@" not in lab:
+                    continue  # obligation of another property that shares this unit
                 ledger[lab] = dict(status=o["status"], tool="verus/z3", tag="P", unit=r.unit, msg=o["msg"])
         for lab, o in ledger.items():
             if o["status"] == "undecided":
